@@ -19,7 +19,7 @@ def vrun(profile, quick, thorough, **kw):
 PROPS = {
     "C01": {
         "workloads": [vrun("c01", 4000, 80000), vrun("general", 1500, 30000)],
-        "rule": "each real run's raw event stream is replayed into every stats pipeline (Summarize<Normalize<Basic>>, the same under FailOnSkipped, under Repeat::failed / Repeat::skipped, Normalize<Libtest> incl. its suite line, Tee, Or with constant predicate); non-trivial = the run contains a failed/skipped step, a failed hook or a parser error; distinct by the run's per-attempt outcome shape [step failed, hook failed, skipped, retries left] (every run is judged by all 12 pipeline verdicts; see observed.c01.pipeline_verdicts)",
+        "rule": "each real run's raw event stream is replayed into every stats pipeline (Summarize<Normalize<Basic>>, the same under FailOnSkipped, under Repeat::failed / Repeat::skipped, Normalize<Libtest> incl. its suite line, Tee, Or with constant predicate); non-trivial = the run contains a failed/skipped step, a failed hook or a parser error; distinct by the run's per-attempt outcome shape [step failed, hook failed, skipped, retries left] (every run is judged by all 12 pipeline verdicts; every 5th run is executed again without gates through Cucumber::custom(..).run_and_exit() - half of them under fail_on_skipped - and must panic iff the statement says failed; see observed.c01.*)",
         "floor": {"quick": 200, "thorough": 1000},
         "assumptions": VRUN_ASSUME + ["the verdict oracle is written from the statement over the raw stream; the former rule (any Hook::Failed fails the run) is still computed to label a mismatch of exactly that shape (`verdict:hook-failed-in-nonfinal-attempt`, repaired by 3269717)"],
     },
@@ -110,7 +110,7 @@ PROPS.update({
     "C13": {
         "engine_name": "vstream",
         "workloads": [vstream("c13", 6000, 100000)],
-        "rule": "arbitrary streams (interleaved, sequential, every 7th randomly shuffled = not contract-abiding) through FailOnSkipped (default and custom predicate), Repeat (skipped / failed / custom filter), Tee (events and arbitrary writes, scripted stats), Or (routing by token, scripted stats) and the nesting FailOnSkipped<Repeat<Tee<..>>>; non-trivial = the stream has events the wrapper must transform / repeat / route; distinct by the stream's skipped/failed/finished shape",
+        "rule": "arbitrary streams (interleaved, sequential, every 7th randomly shuffled = not contract-abiding) through FailOnSkipped (default and custom predicate), Repeat (skipped / failed / custom filter), Tee (events and arbitrary writes, scripted stats), Or (routing by token, scripted stats), discard::Arbitrary / discard::Stats and the nesting FailOnSkipped<Repeat<Tee<..>>>; non-trivial = the stream has events the wrapper must transform / repeat / route; distinct by the stream's skipped/failed/finished shape",
         "floor": {"quick": 300, "thorough": 2000},
         "assumptions": VSTREAM_ASSUME,
     },
